@@ -3,7 +3,7 @@
 # Confirms a seeded change on a scratch copy of /repo (compiles, baseline tests pass, the demonstration
 # fails with it and passes without it) and runs the given checks against the copy.
 set -u
-SRC="$1"; shift
+SRC="$(cd "$1" && pwd)"; shift
 export GOFLAGS=-mod=mod GOPROXY=off GOSUMDB=off GOTOOLCHAIN=local CGO_ENABLED=1
 W="$(mktemp -d /tmp/trymut.XXXXXX)"
 trap 'rm -rf "$W"' EXIT
